@@ -86,6 +86,8 @@ def _reader_case(draw, tier):
         "rename_kind": draw(st.sampled_from(["suffix", "suffix", "swap", "chain"])),
         # an in-memory frame handed to DataFrameReader need not carry the default index (filtered / sliced / re-ordered frame)
         "df_index": draw(st.sampled_from([None, None, "filtered", "sliced", "reversed"])),
+        # separators of the delimited-text inputs (children of a joined reader may differ)
+        "seps": [draw(st.sampled_from(["\t", "\t", ","])) for _ in range(3)],
     }
 
 
@@ -108,7 +110,7 @@ def _frame(cols, n):
     return pd.DataFrame(data, index=pd.RangeIndex(n))
 
 
-def _make_reader(kind, df, path_stem, row_group):
+def _make_reader(kind, df, path_stem, row_group, sep="\t"):
     from mokapot import tabular_data as td
 
     if kind == "dataframe":
@@ -128,10 +130,15 @@ def _make_reader(kind, df, path_stem, row_group):
     _old = td.TabularDataReader.from_path(p)
     _old.get_column_names(), _old.read()
     with open(p, "w") as f:
-        f.write("\t".join(df.columns) + "\n")
+        f.write(sep.join(df.columns) + "\n")
         for i in range(len(df)):
-            f.write("\t".join(_fmt(df[c].iat[i]) for c in df.columns) + "\n")
-    return td.TabularDataReader.from_path(p), "text"
+            f.write(sep.join(_fmt(df[c].iat[i]) for c in df.columns) + "\n")
+    reader = td.TabularDataReader.from_path(p) if sep == "\t" else td.TabularDataReader.from_path(p, sep=sep)
+    # another delimited-text reader with a separator of its own is created (and used) while this one is alive
+    q = Path(str(path_stem) + "_other.csv")
+    q.write_text("a;b\n1;2\n")
+    td.CSVFileReader(q, sep=";").get_column_names()
+    return reader, "text"
 
 
 def _fmt(v):
@@ -184,6 +191,7 @@ def _check_reader(case):
     model = {c["name"]: c["values"] for c in cols}
     with scratch_dir() as tmp:
         rk = case["reader"]
+        seps = case.get("seps") or ["\t"] * 3
         text_cols = set()
         labels = list(range(n))
         if rk == "dataframe" and case.get("df_index"):
@@ -191,11 +199,11 @@ def _check_reader(case):
                       "reversed": list(range(n - 1, -1, -1))}[case["df_index"]]
             df.index = pd.Index(labels, dtype=np.int64)
         if rk in ("tsv", "parquet", "dataframe"):
-            reader, src = _make_reader(rk, df, tmp / "t", case["row_group"])
+            reader, src = _make_reader(rk, df, tmp / "t", case["row_group"], seps[0])
             if src == "text":
                 text_cols = set(df.columns)
         elif rk == "renamed":
-            base, src = _make_reader(case["base"], df, tmp / "t", case["row_group"])
+            base, src = _make_reader(case["base"], df, tmp / "t", case["row_group"], seps[0])
             cmap = _rename_map(case)
             reader = td.ColumnMappedReader(base, cmap)
             kinds = {cmap.get(k, k): v for k, v in kinds.items()}
@@ -207,13 +215,13 @@ def _check_reader(case):
             children = []
             for gi, (a, b) in enumerate(zip(bounds, bounds[1:])):
                 names = [c["name"] for c in cols[a:b]]
-                child, src = _make_reader(case["child_kinds"][gi % 3], df[names], tmp / f"j{gi}", case["row_group"])
+                child, src = _make_reader(case["child_kinds"][gi % 3], df[names], tmp / f"j{gi}", case["row_group"], seps[gi % 3])
                 children.append(child)
                 if src == "text":
                     text_cols |= set(names)
             reader = stm.JoinedTabularDataReader(children)
         else:  # computed
-            base, src = _make_reader(case["base"], df, tmp / "t", case["row_group"])
+            base, src = _make_reader(case["base"], df, tmp / "t", case["row_group"], seps[0])
             reader = stm.ComputedTabularDataReader(base, "comp", np.dtype("int64"), lambda d: np.asarray(d.index, dtype=np.int64) * 2 + 1)
             kinds = {**kinds, "comp": "int"}
             model = {**model, "comp": [2 * i + 1 for i in range(n)]}
@@ -361,6 +369,13 @@ class WriterExec:
         self.model.extend(rows)
         self.appends += 1
 
+    def reinitialize(self):
+        """a second session with the same writer object: the file starts again, nothing of the first session is carried over"""
+        guarded(self.writer.initialize, sig="writer.initialize")
+        self.model = []
+        self.pending = 0
+        self.sessions = getattr(self, "sessions", 1) + 1
+
     def finalize_and_check(self):
         guarded(self.writer.finalize, sig="writer.finalize")
         n = len(self.model)
@@ -385,10 +400,14 @@ def run_history(ops):
             elif op[0] == "finalize":
                 ex.finalize_and_check()
                 done = True
+            elif op[0] == "reinit":
+                ex.reinitialize()
+                done = False
         if not done:
             ex.finalize_and_check()
         return {"nontrivial": ex.appends >= 2 and ex.crossed, "classes": ["writer-" + ops[0]["fmt"], "buffer-" + (ops[0]["buffer_kind"] if ex.buffered else "none")]
                 + (["writer-recycled-batch-list"] if getattr(ex, "recycled", False) else [])
+                + (["writer-second-session"] if getattr(ex, "sessions", 1) > 1 else [])
                 + (["writer-custom-separator"] if (ops[0]["fmt"] != "parquet" and ops[0].get("sep", "\t") != "\t") else []),
                 "counters": {"rows_written": len(ex.model)}}
 
@@ -470,6 +489,13 @@ def extra(tier, seed, shard, nshards, stats):
 
         @precondition(lambda self: self.finalized)
         @rule()
+        def reinit(self):
+            self.ops.append(("reinit",))
+            self.finalized = False
+            self._step(self.ex.reinitialize)
+
+        @precondition(lambda self: self.finalized)
+        @rule()
         def idle(self):
             pass  # a finalised writer accepts nothing more; keeps the machine from running out of rules
 
@@ -483,7 +509,8 @@ def extra(tier, seed, shard, nshards, stats):
             case = {"kind": "writer-history", "ops": [self.ops[0]] + [list(o) for o in self.ops[1:]]}
             stats.evaluations += 1
             stats.observe(case, {"nontrivial": self.ex.appends >= 2 and self.ex.crossed,
-                                 "classes": ["writer-" + self.ops[0]["fmt"], "buffer-" + (self.ops[0]["buffer_kind"] if self.ex.buffered else "none")],
+                                 "classes": ["writer-" + self.ops[0]["fmt"], "buffer-" + (self.ops[0]["buffer_kind"] if self.ex.buffered else "none")]
+                                 + (["writer-second-session"] if getattr(self.ex, "sessions", 1) > 1 else []),
                                  "counters": {"rows_written": len(self.ex.model), "writer_histories": 1}})
 
     n = (1600 if tier == "quick" else 48000) // nshards
